@@ -25,14 +25,18 @@
 (* kept as a history variable.                                                                        *)
 EXTENDS Integers, Sequences, FiniteSets, TLC
 
-CONSTANTS Kinds, Widths, Heights, Headers, RefX, RefY, RecY, Peers, MaxHist
+CONSTANTS Kinds, Widths, Heights, Headers, RefX, RefY, RecY, Peers, Edits, MaxHist
 \* Headers: set of <<cdelt, pc>>;  RefX: set of doubled CRPIX1;  RefY: set of <<a, b>> meaning doubled CRPIX2 = a + b*h
 \* RecY: set of <<a, b>> meaning recorded NAXIS2 = a + b*h (<<0, 0>> = none);  Peers: subset of {"none", "alias", "tail", "head"}
+\* Edits: subset of {"cdsign", "cdelt1", "rowswap"} - in-place edits of the object's WCS made by the client between calls (each
+\*   changes the parity: CDi_2 sign flipped, CDELT1 negated, the two matrix rows exchanged).  After an edit the object IS a
+\*   different picture of the sky: base (the reference for "moves no pixel") is reset to the edited object; the object's parity
+\*   is a function of its current contents only.
 \* MaxHist = 0: no history is recorded (two to four states per case).  MaxHist = n > 0: every sequence of at most n calls is a
 \* behaviour of its own (hist = the calls made, trace = the specified object after each of them) and is handed to the harness.
-VARIABLES orig, cur, peer, buf, hist, trace
+VARIABLES orig, cur, base, peer, buf, hist, trace
 
-vars == <<orig, cur, peer, buf, hist, trace>>
+vars == <<orig, cur, base, peer, buf, hist, trace>>
 
 \* ------------------------------------------------------------------ the linear WCS
 CDof(cdelt, pc) == <<cdelt[1] * pc[1], cdelt[1] * pc[2], cdelt[2] * pc[3], cdelt[2] * pc[4]>>
@@ -90,7 +94,7 @@ WorldTable(o, c) == WorldTableH(o, c.w, c.h)
 Snapshot(o) == [cd |-> o.cd, p |-> o.p, rows |-> AsArray(o), pil |-> AsPil(o), sign |-> Sign(o.cd), det |-> Det(o.cd)]
 
 \* buf[i] = which original frame row the buffer holds in its physical row i-1: the identity, and it stays the identity
-Init == /\ orig \in Cases /\ cur = Start(orig) /\ peer = PeerStart(orig)
+Init == /\ orig \in Cases /\ cur = Start(orig) /\ base = Start(orig) /\ peer = PeerStart(orig)
         /\ buf = [i \in 1..orig.h |-> i - 1] /\ hist = <<>> /\ trace = <<>>
 Record(name) ==
     IF MaxHist = 0 THEN UNCHANGED <<hist, trace>>
@@ -99,13 +103,19 @@ Record(name) ==
          /\ trace' = Append(trace, [snap |-> Snapshot(cur'), world |-> WorldTable(cur', orig),
                                    psnap |-> IF HasPeer THEN Snapshot(peer') ELSE Snapshot(cur'),
                                    pworld |-> IF HasPeer THEN WorldTableH(peer', orig.w, PeerH(orig)) ELSE <<>>])
-FlipParity == cur' = Flip(cur, orig.h) /\ UNCHANGED <<orig, peer, buf>> /\ Record("flip")
-EnsureNegativeParity == cur' = Ensure(cur, orig.h) /\ UNCHANGED <<orig, peer, buf>> /\ Record("ensure")
-Touch == orig.kind = "pil" /\ cur' = Touched(cur) /\ UNCHANGED <<orig, peer, buf>> /\ Record("touch")
+FlipParity == cur' = Flip(cur, orig.h) /\ UNCHANGED <<orig, base, peer, buf>> /\ Record("flip")
+EnsureNegativeParity == cur' = Ensure(cur, orig.h) /\ UNCHANGED <<orig, base, peer, buf>> /\ Record("ensure")
+Touch == orig.kind = "pil" /\ cur' = Touched(cur) /\ UNCHANGED <<orig, base, peer, buf>> /\ Record("touch")
 \* the same two operations called on the second Image
-FlipPeer == HasPeer /\ peer' = Flip(peer, PeerH(orig)) /\ UNCHANGED <<orig, cur, buf>> /\ Record("flipB")
-EnsurePeer == HasPeer /\ peer' = Ensure(peer, PeerH(orig)) /\ UNCHANGED <<orig, cur, buf>> /\ Record("ensureB")
-Next == FlipParity \/ EnsureNegativeParity \/ Touch \/ FlipPeer \/ EnsurePeer
+FlipPeer == HasPeer /\ peer' = Flip(peer, PeerH(orig)) /\ UNCHANGED <<orig, cur, base, buf>> /\ Record("flipB")
+EnsurePeer == HasPeer /\ peer' = Ensure(peer, PeerH(orig)) /\ UNCHANGED <<orig, cur, base, buf>> /\ Record("ensureB")
+\* the client edits the WCS object in place
+Edited(cd, e) == CASE e = "cdsign"  -> <<cd[1], 0 - cd[2], cd[3], 0 - cd[4]>>
+                   [] e = "cdelt1"  -> <<0 - cd[1], 0 - cd[2], cd[3], cd[4]>>
+                   [] e = "rowswap" -> <<cd[3], cd[4], cd[1], cd[2]>>
+EditWcs(e) == /\ cur' = [cur EXCEPT !.cd = Edited(cur.cd, e)] /\ base' = cur'
+              /\ UNCHANGED <<orig, peer, buf>> /\ Record(e)
+Next == FlipParity \/ EnsureNegativeParity \/ Touch \/ FlipPeer \/ EnsurePeer \/ (\E e \in Edits : EditWcs(e))
 Spec == Init /\ [][Next]_vars
 
 HasData == orig.kind # "desc"
@@ -113,23 +123,25 @@ HasData == orig.kind # "desc"
 \* ------------------------------------------------------------------ the sentences of the property
 \* "moves no pixel on the sky": whatever calls were made, the pixel stored in array row y is the original row
 \* rows[y+1] and still has that row's sky position (for a description: the original or its mirror image)
+PosIn(s, r) == CHOOSE i \in 1..Len(s) : s[i] = r
 SkyUnchanged ==
-    LET o == Start(orig) IN
+    LET o == base IN
     IF HasData
-    THEN \A q \in Pixels(orig) : World(cur.cd, cur.p, q[1], q[2]) = World(o.cd, o.p, q[1], AsArray(cur)[q[2] + 1])
+    THEN \A q \in Pixels(orig) : World(cur.cd, cur.p, q[1], q[2])
+                                    = World(o.cd, o.p, q[1], PosIn(AsArray(o), AsArray(cur)[q[2] + 1]) - 1)
     ELSE \/ cur = o
          \/ \A q \in PixelsAndRing(orig) : World(cur.cd, cur.p, q[1], q[2]) = World(o.cd, o.p, q[1], orig.h - 1 - q[2])
-\* the picture (pixel value, sky position) as a set is the same as at the start
+\* the picture (pixel value, sky position) as a set is the same as at the start / at the last edit of the WCS
 SamePicture ==
     HasData =>
-        LET o == Start(orig) IN
+        LET o == base IN
         {<<AsArray(cur)[q[2] + 1] * orig.w + q[1], World(cur.cd, cur.p, q[1], q[2])>> : q \in Pixels(orig)}
-          = {<<q[2] * orig.w + q[1], World(o.cd, o.p, q[1], q[2])>> : q \in Pixels(orig)}
+          = {<<AsArray(o)[q[2] + 1] * orig.w + q[1], World(o.cd, o.p, q[1], q[2])>> : q \in Pixels(orig)}
 \* the two views of the pixel data never disagree, whatever was called in whatever order
 ViewsAgree == AsArray(cur) = AsPil(cur)
 \* the reported sign is tied to the orientation of the stored rows
 SignTracksRows ==
-    LET o == Start(orig) IN
+    LET o == base IN
     /\ Sign(cur.cd) \in {-1, 1}
     /\ (View(cur) = View(o)) => Sign(cur.cd) = Sign(o.cd)
     /\ (View(cur) # View(o)) => Sign(cur.cd) = 0 - Sign(o.cd)
@@ -175,6 +187,11 @@ PeerOK ==
                        /\ \A x \in 0..(orig.w - 1), y \in 0..(PeerH(orig) - 1) :
                              World(peer.cd, peer.p, x, y) = World(peer'.cd, peer'.p, x, PeerH(orig) - 1 - y)
         /\ EnsurePeer => Sign(peer'.cd) = -1 /\ Ensure(peer', PeerH(orig)) = peer' ]_vars
+\* an in-place edit: the parity afterwards is that of the edited matrix (here: the opposite one), nothing else changes
+EditOK ==
+    [][ \A e \in Edits : EditWcs(e) =>
+          /\ Sign(cur'.cd) = (IF Det(Edited(cur.cd, e)) < 0 THEN 1 ELSE -1) /\ Sign(cur'.cd) = 0 - Sign(cur.cd)
+          /\ AsArray(cur') = AsArray(cur) /\ AsPil(cur') = AsPil(cur) /\ cur'.p = cur.p ]_vars
 \* the space is what the property quantifies over: non-singular matrices only
 WellFormed == Det(Start(orig).cd) # 0 /\ Det(cur.cd) # 0
 
